@@ -1,6 +1,7 @@
 package main
 
 import (
+	"go/token"
 	"fmt"
 	"sort"
 	"strings"
@@ -95,7 +96,7 @@ func (a *Analyzer) Normalize(f Facts) (Facts, map[string]*Term) {
 				base = base.Args[0]
 			}
 			if base.Op == "ext" && len(base.Args) == 1 && base.Args[0].Op == "call" && a.calleeOf(base.Args[0]) != nil &&
-				!(r.Op == "ext" && len(r.Args) == 1 && r.Args[0].Op == "call" && r.Key() > l.Key()) {
+				(a.rwRank(l) > a.rwRank(r) || (a.rwRank(l) == a.rwRank(r) && !(r.Op == "ext" && len(r.Args) == 1 && r.Args[0].Op == "call" && r.Key() > l.Key()))) {
 				internal := r.Contains(func(t *Term) bool { return t.Op == "phi" || t.Op == "unk" || t.Op == "make" })
 				if !r.ContainsKey(l.Key()) && r.Key() != tNil.Key() && !internal {
 					if _, dup := rw[l.Key()]; !dup {
@@ -515,3 +516,24 @@ func dedupSorted(xs []string) []string {
 }
 
 func fmtf(format string, a ...interface{}) string { return fmt.Sprintf(format, a...) }
+
+// rwRank orients value equalities into rewrite rules (no cycles): a projection of a helper's result struct is rewritten
+// to what it equals, the result of an unexported helper is rewritten to the result of an exported (anchor) function,
+// never the other way round.
+func (a *Analyzer) rwRank(t *Term) int {
+	rank := 0
+	base := t
+	if base.Op == "field" && len(base.Args) == 1 {
+		base = base.Args[0]
+		rank = 2
+	}
+	if base.Op == "ext" && len(base.Args) == 1 && base.Args[0].Op == "call" {
+		if f := a.calleeOf(base.Args[0]); f != nil {
+			if !token.IsExported(f.Name()) {
+				rank++
+			}
+			return rank
+		}
+	}
+	return -1 // not a helper result at all: never a left-hand side anyway
+}
